@@ -187,7 +187,7 @@ PROPS = {
         'design_ref': 'DESIGN.md section 4, C15',
         'claim': 'BuildKey: kind tag <-> kind maps are inverse on the nine kinds and distinct (spec table checked for distinctness), getKind reads the '
                  'tag byte, and every accessor of the two wire shapes returns exactly the length-delimited name / payload span for arbitrary bytes '
-                 '(keys shorter than 2^32 bytes); BuildValue: a kind\'s signature / output infos / string list are encoded and decoded exactly when its factory takes them; BuildValue::toData and the decoding constructor walk the same item sequence (kind; signature, count + infos in order, string list -- each exactly when the factory of the kind takes that payload), the decoder allocating a block of exactly the count read; BinaryEncoder::write / BinaryDecoder::read of 8/16/32/64-bit integers write and read the little-endian bytes and advance by the width (so decode(encode(x)) = x at item and at byte level); BuildKey(tag, name) builds the tag byte followed by ALL bytes of the name (length from the StringRef, not from a terminator); BinaryCodingTraits<FileChecksum> writes the 32 checksum bytes in order and reads them back in order, each byte as itself (0x00 included); StringList built from one string holds that string followed by its terminator and its encoded size counts the terminator; encode writes the size and then exactly that many bytes',
+                 '(keys shorter than 2^32 bytes); BuildValue: a kind\'s signature / output infos / string list are encoded and decoded exactly when its factory takes them; BuildValue::toData and the decoding constructor walk the same item sequence (kind; signature, count + infos in order, string list -- each exactly when the factory of the kind takes that payload), the decoder allocating a block of exactly the count read; BinaryEncoder::write / BinaryDecoder::read of 8/16/32/64-bit integers write and read the little-endian bytes and advance by the width (so decode(encode(x)) = x at item and at byte level); BuildKey(tag, name) builds the tag byte followed by ALL bytes of the name (length from the StringRef, not from a terminator); BinaryCodingTraits<FileChecksum> writes the 32 checksum bytes in order and reads them back in order, each byte as itself (0x00 included); StringList built from one string holds that string followed by its terminator and its encoded size counts the terminator; encode writes the size and then exactly that many bytes; StringList::getValues reads the contents as consecutive terminated items that cover them exactly (a trailing empty string included), each listed once in order',
         'not_decided': ['the key constructors (std::string building)', 'the array-built StringList constructor and getValues (the one-string constructor and encode are under contract)', 'the decoder does not check that it stays inside its data (corrupt stored values)'],
     },
     'C16': {
